@@ -143,6 +143,18 @@ def pre_formulas(tier: str):
               "(and (p ?x) (p ?y))", "(and (not (p ?x)) (not (p ?y)) (r))", "(and (or (p ?x) (p ?y)) (p ?x))"):
         yield t, ["extra"]
     for T, lz in LZ.items():
+        for a in L10[:5]:
+            for z in lz[:4]:
+                t = f"(and (or (forall (?z - {T}) (and {z})) {a}))"
+                if quantifier_ok(t, T):
+                    yield t, ["forall", "forall-in-or", f"forall-{T}"]
+        for z in lz[:3]:
+            yield f"(and (p ?x) (or (r) (and (forall (?z - {T}) (and {z})) (not (p ?y)))))", ["forall", "forall-in-or", f"forall-{T}"]
+    for T in ("t1", "t2"):
+        # the quantified variable has the name of an action parameter (legal shadowing)
+        yield f"(and (p ?x) (forall (?y - {T}) (and (not (q ?x ?y)))))", ["forall", "shadow", f"forall-{T}"]
+        yield f"(and (forall (?x - {T}) (or (p ?x) (q ?x ?y))))", ["forall", "shadow", f"forall-{T}"]
+    for T, lz in LZ.items():
         for T2 in ("t1", "t2"):
             for z1, z2 in product(lz[:3], LZ[T2][:3]):
                 if z1 != z2:
@@ -272,6 +284,10 @@ EXTRA_EFF = [  # constant before a variable; constants inside function terms; sa
     "(and (increase (h c ?y) 1))", "(and (assign (h ?x c) (h c ?x)))", "(and (p ?x) (p ?y))",
     "(and (not (p ?x)) (not (p ?y)))", "(and (when (p ?y) (p ?x)) (when (p ?x) (p ?y)))",
     "(and (when (p ?x) (not (q ?x ?y))) (when (q ?x ?y) (not (p ?x))))",
+    "(and (forall (?y - t1) (when (q ?x ?y) (not (q ?x ?y)))))",          # quantified variable shadows a parameter
+    "(and (p ?y) (forall (?x - t2) (when (not (p ?x)) (q ?x ?y))))",
+    "(and (forall (?z - t1) (when (not (q ?x ?z)) (p ?z))))",              # condition true for objects no fact mentions
+    "(and (forall (?z - object) (when (not (m ?z)) (m ?z))))",
 ]
 FINE = [  # right-hand sides whose exact value needs more than 4 decimals / is not a dyadic number
     "(and (increase (f) (* (g ?x) 0.0001)))",
@@ -282,7 +298,40 @@ FINE = [  # right-hand sides whose exact value needs more than 4 decimals / is n
 ]
 
 
+LAYOUTS = [  # (constants, extra predicates, extra functions, parameters, precondition, effect): declaration layouts
+    # an object-typed constant group before / between typed groups; untyped constants last
+    ("k0 - object c - t1", "", "", "?x - t1", "(and (forall (?z - t1) (or (p ?z) (m ?z))))", "(and (p c) (m k0))"),
+    ("c - t1 k0 - object c3 - t3", "", "", "?x - t1", "(and (not (m k0)) (forall (?z - t3) (and (m ?z))))", "(and (m k0) (not (m c3)))"),
+    ("c - t1 k0", "", "", "?x - t1", "(and (forall (?z - t1) (or (p ?z) (m ?z))))", "(and (m k0) (q ?x c))"),
+    ("c2 - t2 c - t1", "", "", "?x - t1", "(and (forall (?z - t2) (and (p ?z))))", "(and (q c c2) (not (p c2)))"),
+    # parameters whose types interleave
+    (None, "", "", "?x - t1 ?w - t3 ?y - t1", "(and (p ?x) (not (p ?y)) (m ?w))", "(and (q ?x ?y) (not (m ?w)) (increase (h ?x ?y) 1))"),
+    (None, "", "", "?w - t3 ?x ?y - t1", "(and (not (= ?x ?y)) (m ?w))", "(and (q ?y ?x) (not (m ?w)))"),
+    (None, "", "", "?x - t1 ?w - object ?y - t2", "(and (q ?x ?y) (not (m ?w)))", "(and (m ?w) (not (q ?x ?y)) (assign (g ?y) (g ?x)))"),
+    (None, "", "", "?y - t2 ?x - t1", "(and (p ?y))", "(and (q ?y ?x) (decrease (g ?x) (g ?y)))"),
+    # predicate / function declarations whose types interleave
+    (None, "(s3 ?a - t1 ?b - t3 ?c - t1)", "(w3 ?a - t1 ?b - t3 ?c - t1)", "?x - t1 ?w - t3 ?y - t1",
+     "(and (or (s3 ?x ?w ?y) (>= (w3 ?x ?w ?y) 1)))", "(and (s3 ?y ?w ?x) (increase (w3 ?y ?w ?x) 2))"),
+    (None, "(s3 ?a ?b - t1 ?c - object)", "(w3 ?a - object ?b ?c - t1)", "?x - t1 ?y - t1 ?w - t3",
+     "(and (not (s3 ?x ?y ?w)))", "(and (s3 ?y ?x ?w) (assign (w3 ?w ?x ?y) (f)))"),
+]
+
+
+def layout_programs():
+    for consts, preds, funcs, params, pre, eff in LAYOUTS:
+        head = [REQ, TYPES]
+        if consts:
+            head.append(f"(:constants {consts})")
+        head.append(PREDS_T[:-1] + (" " + preds if preds else "") + ")")
+        head.append(FUNCS_T[:-1] + (" " + funcs if funcs else "") + ")")
+        text = ("(define (domain v)\n" + "\n".join(head) + f"\n(:action a\n :parameters ({params})\n"
+                f" :precondition {pre}\n :effect {eff}))\n")
+        yield {"domain": text, "objects": dict(OBJECTS), "profile": "layout " + (consts or "") + " | " + params,
+               "pre": pre, "eff": eff, "tags": ["layout"], "header": "layout"}
+
+
 def eff_programs(tier: str):
+    yield from layout_programs()
     # effects that read what another effect of the same action writes (zero-arity and parameterised fluents)
     for text in MUTUAL:
         yield program("xy", "(and)", text, ["mutual"])
